@@ -9,6 +9,7 @@ import (
 	"os"
 	"runtime"
 	"runtime/pprof"
+	"strings"
 	"time"
 )
 
@@ -134,6 +135,11 @@ func coreReplay(args []string) {
 			case line := <-done:
 				must(enc.Encode(line))
 				prev = line.St
+				if strings.HasPrefix(line.Pan, "hang:") {
+					w.Flush()
+					fmt.Printf("{\"behaviours\": %d, \"steps\": %d, \"hung\": true}\n", nb+1, ns+1)
+					os.Exit(0)
+				}
 			case <-time.After(30 * time.Second):
 				line := TraceLine{A: a, Ret: "panic", Pan: "hang: the step did not return within 30 s (a call of the stack blocks forever)",
 					Out: map[string][]AbsDg{}, Req: map[string][]AbsDg{}, Cbf: []CbFire{}, Ev: []AbsEvent{}, St: prev}
